@@ -137,6 +137,8 @@ Fixpoint scan_str (t : text) (p : nat) (fuel : nat) : list elem :=
       | (r, v) =>
           if (r <? 0)%Z then [EErr r] else
           let rs := zpos p' r in
+          (* only white space read: no element *)
+          if all_space (firstn (rs - p) (skipn p (t_bytes t))) then [EErr MissingData] else
           let e := match v with Some v => EV v | None => EUnset end in
           if Nat.ltb rs (tlen t) then e :: scan_str t (S rs) fuel else [e]
       end
